@@ -207,6 +207,9 @@ class Lowerer:
         s = re.sub(r'\bXENIUM_THREAD_FENCE\s*\(', 'A_FENCE(', s)
         s = re.sub(r'\bstd::atomic_thread_fence\s*\(', 'A_FENCE(', s)
         s = re.sub(r'\bXENIUM_(UN)?LIKELY\b', '', s)
+        # verification hook points (guard MPOETER_XENIUM_VERIF, empty without it) are not part of the verified text
+        s, nh = re.subn(r'\bXENIUM_VERIF_POINT\s*\(\s*"[^"]*"\s*\)\s*;', '', s)
+        if nh: self.fire('verif_point', nh)
         s = re.sub(r'\bassert\s*\(', 'XV_XASSERT(', s)
         return s
 
